@@ -38,6 +38,9 @@ def gen_cases(ctx):
             continue
         order = list(range(q))
         rng.shuffle(order)
+        if rng.random() < 0.15:
+            # the same module OBJECT listed twice (harmless without citations: it is one module)
+            order.append(rng.choice(order))
         cases.append({"enz": enz["name"], "q": q, "elements": ch["elements"], "order": order,
                       "calls": rng.choice([1, 2, 3]),
                       "fail_first": rng.choice([None, None, "missing" if q > 1 else "bad-citation", "bad-citation"])})
